@@ -193,6 +193,42 @@ fn decorate(e: &Envelope, a: &mut Aux) -> Envelope {
     }
 }
 
+/// a genuine request / response / event / expression envelope in which one assertion has been decorated
+/// (salted, annotated) or had a part obscured - same predicate, same object
+fn expression_shaped(a: &mut Aux) -> Envelope {
+    let id = bc_components::ARID::from_data_ref(a.rng.bytes(32)).unwrap();
+    let x: Envelope = match a.rng.below(7) {
+        0 => Response::new_success(id).with_result("ok").into(),
+        1 => Response::new_failure(id).with_error("went wrong").into(),
+        2 => Response::new_early_failure().with_error("early").into(),
+        3 => Request::new(functions::ADD, id).with_parameter(parameters::LHS, 2).with_parameter(parameters::RHS, 3).with_note("n").with_date(dcbor::Date::from_timestamp(1.0e9)).into(),
+        4 => Event::<String>::new("content".to_string(), id).with_note("n").with_date(dcbor::Date::from_timestamp(1.0e9)).into(),
+        5 => Event::<Envelope>::new(Envelope::new("c").add_assertion("k", 1), id).into(),
+        _ => Expression::new(functions::ADD).with_parameter(parameters::LHS, 2).with_parameter("named", Envelope::new("v").add_assertion("k", 1)).into(),
+    };
+    let asr = x.assertions();
+    if asr.is_empty() {
+        return x;
+    }
+    let t = asr[a.rng.below(asr.len())].clone();
+    let stripped = x.remove_assertion(t.clone());
+    let decorated = match a.rng.below(6) {
+        0 => t.add_salt(),
+        1 => t.add_assertion(known_values::NOTE, "decorated"),
+        2 => t.add_salt().add_salt(),
+        3 => t.elide_removing_target(&t.as_object().unwrap()),
+        4 => t.elide_removing_target(&t.as_predicate().unwrap()),
+        _ => t.add_salt().elide_removing_target(&t),
+    };
+    let y = stripped.add_assertion_envelope(decorated).unwrap_or(x.clone());
+    // sometimes BOTH forms of the part (plain and decorated with another value)
+    if a.rng.chance(1, 4) {
+        y.add_assertion_envelope(Envelope::new_assertion(t.as_predicate().unwrap(), "second").add_salt()).unwrap_or(y.clone())
+    } else {
+        y
+    }
+}
+
 pub fn run(ctx: &mut Ctx) {
     bc_envelope::register_tags();
     let ops = catalogue();
@@ -254,6 +290,7 @@ pub fn run(ctx: &mut Ctx) {
             }
             zoo.push(("deep-nesting", d));
         }
+        zoo.push(("expression-shaped", expression_shaped(&mut aux)));
         zoo.push(("elided-whole", base.elide()));
         zoo.push(("encrypted-whole", base.wrap_envelope().encrypt_subject(&key).unwrap()));
         if let Ok(c) = base.compress() {
